@@ -5448,6 +5448,23 @@ where
     }
 }
 
+impl<K, U, V, const D: usize> DelaunayTriangulation<K, U, V, D>
+where
+    K: Kernel<D>,
+    U: DataType,
+    V: DataType,
+{
+    /// Mutable access for the bistellar Edit API (no scalar bounds needed).
+    ///
+    /// Like [`Self::as_triangulation_mut`], this drops the performance caches (locate hint
+    /// and duplicate-detection index): an edit can add a vertex behind the index's back.
+    pub(crate) fn triangulation_mut_for_edit(&mut self) -> &mut Triangulation<K, U, V, D> {
+        self.insertion_state.last_inserted_cell = None;
+        self.spatial_index = None;
+        &mut self.tri
+    }
+}
+
 // Custom Serialize implementation that only serializes the Tds
 impl<K, U, V, const D: usize> Serialize for DelaunayTriangulation<K, U, V, D>
 where
